@@ -24,7 +24,8 @@ def gval_string(r: random.Random, hostile=1.0):
         # multi-line text with indentation patterns
         lines = []
         for _ in range(r.randint(2, 4)):
-            lines.append(" " * r.choice([0, 0, 1, 2, 4]) + r.choice(["l", "line", "", " ", "x y", "\tt", "a\u2028b", "x\x0by", "p\x85q", "s\x1ct", "u\u2029"]))
+            lines.append(" " * r.choice([0, 0, 1, 2, 4]) + r.choice(["l", "line", "", " ", "x y", "\tt", "a\u2028b", "x\x0by", "p\x85q", "s\x1ct", "u\u2029", "//?: is-ssb-script: false",
+                                                                   "//?: is-ssb-script: true", "// comment", "def 0 {"]))
         s = "\n".join(lines) + r.choice(["", "\n", "\n  ", " "])
     return s
 
